@@ -110,6 +110,9 @@ func (r *diffRun) rcfg() *mast.RemoteConfig {
 		// a caller-supplied order with the same sign as the default one, but magnitudes other than 1 (like "a - b")
 		def := mast.DefaultKeyCompare(json.Marshal)
 		c.KeyCompare = func(a, b interface{}) (int, error) { x, err := def(a, b); return 7 * x, err }
+		if r.cfg.Rev {
+			c.KeyCompare = func(a, b interface{}) (int, error) { x, err := def(a, b); return -3 * x, err } // descending
+		}
 	}
 	return c
 }
@@ -351,6 +354,7 @@ func diffCase(id int, seed int64, out *json.Encoder, big bool) {
 	cfg.KT = keyTypes[rng.Intn(len(keyTypes))]
 	cfg.VT = []string{"int", "string", "struct", "intslice", "ptrstruct"}[rng.Intn(5)]
 	cfg.Cmp = rng.Intn(4) == 0 && cfg.KT != "struct"
+	cfg.Rev = cfg.Cmp && rng.Intn(2) == 0
 	cfg.NF = []string{"bin", "v1"}[rng.Intn(2)]
 	cfg.Cache = "none"
 	if !big && rng.Intn(8) == 0 {
@@ -371,6 +375,9 @@ func diffCase(id int, seed int64, out *json.Encoder, big bool) {
 		r.kc = bigKeyCodec(cfg.KT, cfg.NK, cfg.Bf)
 	} else {
 		r.kc = newKeyCodec(cfg.KT, cfg.NK, cfg.Bf, rng, nil, 3)
+	}
+	if cfg.Cmp && cfg.Rev {
+		r.kc.reverse()
 	}
 	r.cfg.Layers = r.kc.layers
 	if big {
